@@ -172,8 +172,8 @@ func (g *c20Gen) ups() int {
 }
 
 func (g *c20Gen) tail() string {
-	return g.from("tail", "victim", "victim", "victim.txt", "victimdir/f", "victimdir", "emptydir", "secret", "secret",
-		"secret.json", "other/a", "other/new", "newfile", "outx/file", "out.bak", "out/../victim")
+	return g.from("tail", "victim", "victim", "victim", "secret", "secret", "secret", "secret.json", "secret.json", "secret.json",
+		"victimdir/f", "victimdir/f", "emptydir", "victim.txt", "victimdir", "other/a", "other/new", "newfile", "outx/file", "out.bak", "out/../victim")
 }
 
 var c20HexA = strings.Repeat("a", 64)
@@ -268,7 +268,14 @@ func (g *c20Gen) digest(op string, nmans, nblobs int) string {
 		}
 		return rapid.SampledFrom(xs).Draw(g.t, "validdig")
 	}
-	switch g.pick("digkind", 14) {
+	switch g.pick("digkind", 16) {
+	case 14:
+		// exactly as many ../ as it takes to leave <layout>/blobs/<alg>/ for the guard directory
+		g.note(op, "dig:enc-exact")
+		return "sha256:../../../" + g.tail()
+	case 15:
+		g.note(op, "dig:alg-exact")
+		return g.from("algexact", "../..:", "sha256/../../..:", "../../victimdir/..:") + g.tail()
 	case 0, 1:
 		g.note(op, "dig:valid")
 		return valid()
